@@ -22,8 +22,10 @@ static void judge_success(struct sim *s)
 	struct snap A;
 	char key[160];
 
-	if (!ex->open)
+	if (!ex->open || s->monitors_off) {
+		ex->open = false;
 		return;
+	}
 	ex->client_success = true;
 	sim_snapshot(s, s->sock, &A);
 	CNT("c03/exchanges_judged_success");
@@ -150,6 +152,8 @@ void sim_judge_failure_if_open(struct sim *s, const char *where, int next_qtype,
 	if (!ex->open)
 		return;
 	ex->open = false;
+	if (s->monitors_off)
+		return;
 	sim_snapshot(s, s->sock, &A);
 	CNT("c03/exchanges_judged_failure");
 	cntf(1, "c03/failure_judged_at/%s", where);
